@@ -1,4 +1,5 @@
 import WindVerif.Model.LineFile
+import WindVerif.Model.LineFileSeq
 import WindVerif.Drv.Common
 import WindVerif.Drv.Sorted
 namespace WindVerif.Drv
@@ -87,6 +88,24 @@ def lfStep (st : LFState) (ws : List String) : LFState × String :=
     | some s => (match f.remove s with | .ok f' => okf f' "ok" | .error e => err e)
     | none => (st, "bad-op")
   | ["reverse"] => (match f.reverse with | .ok f' => okf f' "ok" | .error e => err e)
+  -- the inherited `Sequence` / `MutableSequence` methods (`Model/LineFileSeq.lean`)
+  | "index" :: s :: bounds => match decodeStr s, (match bounds with
+      | [] => some (none, none)
+      | [a] => (optInt a).map (fun a => (a, none))
+      | [a, b] => (match optInt a, optInt b with | some a, some b => some (a, b) | _, _ => none)
+      | _ => none) with
+    | some s, some (a, b) => (match lfIndex f s a b with | .ok (f', i) => okf f' s!"ret {i}" | .error e => err e)
+    | _, _ => (st, "bad-op")
+  | ["count", s] => match decodeStr s with
+    | some s => (match lfCount f s with | .ok (f', n) => okf f' s!"ret {n}" | .error e => err e)
+    | none => (st, "bad-op")
+  | ["has", s] => match decodeStr s with
+    | some s => (match lfContains f s with
+      | .ok (f', b) => okf f' (if b then "ret 1" else "ret 0")
+      | .error e => err e)
+    | none => (st, "bad-op")
+  | ["rev"] => (match lfReversed f with | .ok (f', l) => okf f' ("list " ++ showStrs l) | .error e => err e)
+  | ["clear"] => (match f.clear with | .ok f' => okf f' "ok" | .error e => err e)
   | ["dirty"] => (st, if f.dirty then "ret 1" else "ret 0")
   | ["lines"] => (match f.view with | .ok (f', l) => okf f' ("list " ++ showStrs l) | .error e => err e)
   | ["save", le] => match decodeStr le with
